@@ -207,7 +207,7 @@ static void triple_test()
 static constexpr bool in_pair_menu(int i)
 {
 #if defined(VF_QUICK)
-  constexpr int sub[] = {1, 6, 10, 13, 15, 16, 17, 18, 19, 20, 22, 25, 26, 35, 40, 43, 45, 47, 49, 52, 53, 54, 55};
+  constexpr int sub[] = {1, 6, 10, 13, 15, 16, 17, 18, 19, 20, 22, 25, 26, 35, 40, 43, 45, 47, 49, 52, 53, 54, 55, 56, 57, 59, 62, 63, 65};
   for (int x : sub)
     if (x == i) return true;
   return false;
